@@ -185,9 +185,11 @@ class Findings:
         p = os.path.join(VERIF, "known_findings.json")
         self.data = json.load(open(p)) if os.path.exists(p) else {"findings": [], "fixed": []}
 
-    def match_exact(self, prop, line):
+    def match_exact(self, prop, line, impl=None):
         for f in self.data["findings"]:
             if f["property"] == prop and line in (f.get("exact_ops") or []):
+                if impl is not None and f.get("impl_prefix") and not any(impl.startswith(x) for x in f["impl_prefix"]):
+                    continue
                 return f
         return None
 
@@ -282,7 +284,7 @@ def compare(res, findings, lines, impl, model, search=None):
                               {"ops": [ln], "impl": [a], "model": [b]})
                 continue
             if ia == "FAIL" and mb == "ok":
-                f = findings.match_exact(res.prop, ln)
+                f = findings.match_exact(res.prop, ln, a)
                 if f:
                     c, _ = res.known.get(f["id"], (0, f["what"]))
                     res.known[f["id"]] = (c + 1, f["what"])
